@@ -23,7 +23,7 @@ impl Prop for C07 {
         let mut v = vec![];
         for b in 0..(if th { 6 } else { 3 }) { v.push(case(&[("kind", "batch".into()), ("n", (if th { 400 } else { 24 }).to_string()), ("plen", (*[0usize, 13, 70000].get(b % 3).unwrap()).to_string()), ("seed", rng.next().to_string())])); }
         v.push(case(&[("kind", "generate".into()), ("n", (if th { 5000 } else { 300 }).to_string())]));
-        for what in ["pass-encrypt", "encrypt", "key-generate", "change-pass"] { v.push(case(&[("kind", "cli".into()), ("what", what.into()), ("n", (if th { 120 } else { 16 }).to_string()), ("seed", rng.next().to_string())])); }
+        for what in ["pass-encrypt", "encrypt", "key-generate", "change-pass", "change-pass-same"] { v.push(case(&[("kind", "cli".into()), ("what", what.into()), ("n", (if th { 120 } else { 16 }).to_string()), ("seed", rng.next().to_string())])); }
         for &cs in &[1usize, 2, 4] { for n in 1..=6usize { for rep in 0..(if th { 6 } else { 2 }) {
             v.push(case(&[("kind", "nonces".into()), ("cs", cs.to_string()), ("n", n.to_string()), ("rep", rep.to_string()), ("seed", rng.next().to_string())]));
         } } }
@@ -65,6 +65,7 @@ impl Prop for C07 {
                 let plain = rng.bytes(20);
                 let kr = keyring(&[(&fx.alice, true), (&fx.bob, true)]).into_bytes();
                 let (mut a, mut b) = (HashSet::new(), HashSet::new());
+                if what.starts_with("change-pass") { use ct_codecs::{Base64, Decoder}; let blob = Base64::decode_to_vec(&fx.alice.enc_sk, None).unwrap(); a.insert(blob[4..36].to_vec()); b.insert(blob[36..].to_vec()); }   // the input's own salt counts as used
                 o.nontrivial = Some(format!("cli/{}/{}", what, n));
                 for i in 0..n {
                     // identical invocation every time
@@ -72,6 +73,7 @@ impl Prop for C07 {
                         "pass-encrypt" => (World { files: vec![("p".into(), plain.clone())], env: vec![("KESTREL_PASSWORD".into(), "same".into())], stdin: vec![] }, sv(&["pass", "enc", "p", "-o", "c", "--env-pass"])),
                         "encrypt" => (World { files: vec![("p".into(), plain.clone()), ("kr".into(), kr.clone())], env: vec![("KESTREL_PASSWORD".into(), fx.alice.pw.into())], stdin: vec![] }, sv(&["enc", "p", "-t", "bob", "-f", "alice", "-o", "c", "-k", "kr", "--env-pass"])),
                         "key-generate" => (World { files: vec![], env: vec![("KESTREL_PASSWORD".into(), "same".into())], stdin: b"same name\n".to_vec() }, sv(&["key", "gen", "-o", "c", "--env-pass"])),
+                        "change-pass-same" => (World { files: vec![], env: vec![("KESTREL_PASSWORD".into(), fx.alice.pw.into()), ("KESTREL_NEW_PASSWORD".into(), fx.alice.pw.into())], stdin: vec![] }, sv(&["key", "change-pass", &fx.alice.enc_sk, "--env-pass"])),
                         _ => (World { files: vec![], env: vec![("KESTREL_PASSWORD".into(), fx.alice.pw.into()), ("KESTREL_NEW_PASSWORD".into(), "same new".into())], stdin: vec![] }, sv(&["key", "change-pass", &fx.alice.enc_sk, "--env-pass"])),
                     };
                     let obs = run_kestrel(&world, &args);
